@@ -755,6 +755,76 @@ def nontrivial_healthy(c, o):
     return any(len(s["applied"]) >= 1 for s in o["final"])
 
 
+# --------------------------------------------------------------------------- family: forged / malformed inputs to one node
+def gen_forge(rng):
+    n = rng.choice([3, 3, 5])
+    me = rng.randrange(n)
+    inputs = []
+    ncmd = 0
+
+    def small():
+        return rng.choice([-1, 0, 0, 1, 1, 2, 2, 3, 4, 7])
+
+    for _ in range(rng.randint(5, 40)):
+        r = rng.random()
+        src = rng.randrange(n + 1)                     # n = a name that is no peer
+        t = rng.randint(0, 4)
+        if r < 0.10:
+            inputs.append(["T", rng.random() < 0.15])
+        elif r < 0.18:
+            inputs.append(["H", rng.random() < 0.15])
+        elif r < 0.30:
+            ncmd += 1
+            inputs.append(["S", 100 + ncmd])
+        elif r < 0.42:
+            inputs.append(["M", src, ["RV", t, rng.randrange(n + 1), small(), rng.randint(0, 3)]])
+        elif r < 0.55:
+            inputs.append(["M", src, ["VR", t, rng.random() < 0.7, rng.randrange(n + 1)]])
+        elif r < 0.82:
+            pli = small()
+            k = rng.randint(0, 3)
+            base = pli + 1 if rng.random() < 0.8 else small()
+            ents = []
+            for j in range(k):
+                ncmd += 1
+                ents.append([base + j if rng.random() < 0.9 else small(), rng.randint(0, 3), 200 + ncmd])
+            inputs.append(["M", src, ["AE", t, rng.randrange(n + 1), pli, rng.randint(0, 3), ents, small()]])
+        else:
+            inputs.append(["M", src, ["AR", t, rng.random() < 0.6, rng.randrange(n + 1), small()]])
+    return dict(n=n, me=me, inputs=inputs)
+
+
+def impl_forge(c):
+    cl = Cluster(c["n"])
+    i = c["me"]
+    orc = Oracle(c["n"])
+    trace = []
+    for inp in c["inputs"]:
+        if inp[0] == "T":
+            ev = cl._event(i, "RaftElectionTimeout", cancelled=inp[1])
+        elif inp[0] == "H":
+            ev = cl._event(i, "RaftHeartbeat", cancelled=inp[1])
+        elif inp[0] == "S":
+            cl.obs.submit(i, inp[1])
+            trace.append([i, inp, [], cl.obs.node(i)])
+            continue
+        else:
+            typ, md = md_of(inp[2], inp[1], i)
+            ev = cl._event(i, typ, md)
+        outs = parse_outputs(cl.nodes[i].handle_event(ev), cl.net)
+        trace.append([i, inp, [o[:3] for o in outs], cl.obs.node(i)])
+    st = cl.obs.node(i)
+    fails = []
+    ap = st["applied"]
+    # forged messages may make the node apply anything; what must still hold is the node-local clause
+    if [a[0] for a in ap] != list(range(1, len(ap) + 1)) or st["la"] != len(ap) or st["commit"] > st["la"]:
+        fails.append(dict(clause="each node applies indices in order without gaps", node=i, applied=ap, last_applied=st["la"], commit=st["commit"]))
+    for fid, idx, res in st["resolved"]:
+        if [idx, res] not in ap:
+            fails.append(dict(clause="a future resolves only with an (index, command) the node applied", resolved=[fid, idx, res]))
+    return dict(trace=trace, fails=fails, final=[st])
+
+
 FAMILIES = [
     Family("drive", IMPORTS, "ok_net", "list Z * list action * list (Z * option obs * Z)", gen_drive, impl_drive,
            encode_drive, oracle_states, nontrivial_drive, attribute, parallel=True, describe=describe_drive),
@@ -764,6 +834,9 @@ FAMILIES = [
     Family("healthy", IMPORTS, "ok_trace", "list Z * list trace_rec", gen_healthy, impl_healthy,
            encode_trace, oracle_healthy, nontrivial_healthy, attribute, parallel=True,
            describe=lambda c: f"n={c['n']},cmds={len(c['events'])}"),
+    Family("forge", IMPORTS, "ok_trace", "list Z * list trace_rec", gen_forge, impl_forge,
+           encode_trace, oracle_states, lambda c, o: len(o["final"][0]["log"]) > 0, attribute,
+           describe=lambda c: f"n={c['n']},inputs={len(c['inputs']) // 10 * 10}+"),
 ]
 
 TRUSTED = [
@@ -795,14 +868,14 @@ class SmallShards:
 def run(ctx):
     ctx.prove(COQ_FILES, allowed_axioms=(), trusted_base=TRUSTED)
     stats = []
-    for fam, k, shard in zip(FAMILIES, [ctx.n(300, 6000), ctx.n(32, 400), ctx.n(12, 120)], [100, 8, 6]):
+    for fam, k, shard in zip(FAMILIES, [ctx.n(300, 3000), ctx.n(32, 240), ctx.n(12, 80), ctx.n(150, 1500)], [100, 8, 6, 75]):
         fam.parallel = not ctx.quick          # the quick tier's implementation runs take ~2 s in total
         stats.append(run_family(SmallShards(ctx, shard), fam, k))
         ctx.log(f"family {fam.name}: {stats[-1]['cases']} cases, mismatches={stats[-1]['mismatches']}, "
                 f"oracle failures={stats[-1]['oracle_failures']} (known {stats[-1]['known']}), non-trivial={stats[-1]['distinct_nontrivial']}")
     merge_stats(ctx, stats, "direct-drive schedules (deliver/drop/timeout/heartbeat/submit/crash over 3-5 nodes) and real Simulations "
                             "with bimodal latency, loss, partitions, crashes; non-trivial = a leader exists and an entry was committed "
-                            "(drive), a second term was reached and an entry committed (sim), a command applied (healthy); distinct by JSON of the input")
+                            "(drive), a second term was reached and an entry committed (sim), a command applied (healthy), the log is non-empty (forge: forged/malformed message streams to one node); distinct by JSON of the input")
     ctx.finish_obligations()
     ctx.assumptions += [
         "cluster-level log matching, leader completeness and state-machine safety are STATED in C11/LogProofs.v (…_statement) but not proved; "
